@@ -76,6 +76,15 @@ def run_history(backend, n0, segments):
                         amps[r.ind] = amp(r.ind)
                         sq[r.ind] = 0.0
                     created += cnt
+                elif sym.startswith("Dm"):
+                    # ONE Del command naming several modes, in the order given (positions among the alive modes)
+                    pos = [int(ch) for ch in sym[2:]]
+                    if max(pos) >= len(alive):
+                        continue
+                    ks = [alive[p_] for p_ in pos]
+                    ops.Del | tuple(regs[k] for k in ks)
+                    for k in ks:
+                        alive.remove(k)
                 elif sym in ("D0", "D1", "Dlast"):
                     if not alive:
                         continue
@@ -185,6 +194,23 @@ if __name__ == "__main__":
                             break
                     if len([1 for _ in V]) - len(seen_known) > 0:
                         break
+        # one Del command naming several modes in every order, alone and after / before other register changes
+        for backend in backends:
+            for n0 in (2, 3):
+                for r in (2, 3):
+                    for pos in itertools.permutations(range(n0 + 1), r):
+                        for segs in ([["N1", "Dm" + "".join(map(str, pos)), "G0"]], [["N1"], ["Dm" + "".join(map(str, pos)), "N1", "G1"]]):
+                            if backend == "fock" and n0 + 2 > 4:
+                                continue
+                            msg = run_history(backend, n0, segs)
+                            if msg:
+                                fid = classify(backend, segs, msg)
+                                if fid != "-":
+                                    if fid not in seen_known:
+                                        seen_known.add(fid)
+                                        bad(msg, fid)
+                                    continue
+                                bad(msg)
         SAMPLES.append({"backend": "gaussian", "n0": 2, "segments": [["D0", "N1"], ["Dlast"]]})
     except Exception:
         import traceback
